@@ -141,6 +141,7 @@ func closeOnce(ch chan struct{}) {
 
 type env struct {
 	backend  string
+	cacheDir string
 	origin   *httptest.Server
 	proxySrv *httptest.Server
 	px       *proxy.Proxy
@@ -188,6 +189,9 @@ func (e *env) originHandler(w http.ResponseWriter, r *http.Request) {
 	k := po.script[len(po.script)-1]
 	if serial-1 < len(po.script) {
 		k = po.script[serial-1]
+	}
+	if k == kNotModified && !cond {
+		k = kCacheable // a 304 only ever answers a conditional request
 	}
 	po.log = append(po.log, originReq{Serial: serial, Client: cl, Cond: cond, Kind: k})
 	gateHead := po.gateHead && serial == 1
@@ -265,6 +269,7 @@ func newEnv(backend string) *env {
 		if err != nil {
 			panic(err)
 		}
+		e.cacheDir = dir
 		cfg.Cache.File.Dir.Overwrite(dir)
 		cfg.Cache.Type.Overwrite(config.CacheTypeFile)
 	} else {
@@ -314,6 +319,9 @@ func (e *env) close() {
 	e.origin.Close()
 	e.cancel()
 	e.px.Destroy()
+	if e.cacheDir != "" {
+		os.RemoveAll(e.cacheDir)
+	}
 }
 
 // ---------------------------------------------------------------------------
@@ -350,6 +358,11 @@ func (e *env) startClient(path string, id int, slow bool) *client {
 		return c
 	}
 	c.conn = conn
+	if slow {
+		if tc, ok := conn.(*net.TCPConn); ok {
+			tc.SetReadBuffer(256 << 10) // keep the kernel from absorbing the body on the reader's behalf
+		}
+	}
 	conn.SetDeadline(time.Now().Add(clientWatchdog))
 	go func() {
 		defer close(c.done)
